@@ -277,3 +277,37 @@ def front_prop(pid, quick_modes, thorough_modes):
 
 front_prop("C09", [GF + ("lex", 2), GF + ("toks", 2)], [GF + ("lex", 3), GF + ("toks", 4)])
 front_prop("C08", [GF + ("prec", 1), GF + ("toks", 3)], [GF + ("prec", 1), GF + ("toks", 5)])
+
+
+# ---------------------------------------------------------------------------- C10 desugaring
+@prop("C10", "desugar", "Trace_Desugar", None)
+def c10(tier, seed):
+    run = Run("C10", tier, seed)
+    thorough = tier == "thorough"
+    # structural half: the real desugarer against Desugar on every parsed tree of the sugar universe
+    cases, n = run.generate("Gen_Front", "Gen_Front.cfg", mode="sugar", size=5 if thorough else 4)
+    obs = run.replay("desugar", cases=cases, name="desugar_sugar")
+    verdicts = run.validate("Trace_Desugar", obs)
+    run.triage("desugar", "Trace_Desugar", obs, verdicts, None, key=front_key,
+               nontrivial=lambda r: bool(r.get("obs", {}).get("parsed")))
+    # semantic half: sugared notations (?:, method-call syntax) of well-typed programs mean the explicit calls
+    rel = EVAL_REL["C04"] | per_backend("accept", "failclass", "nofail") | {"accept", "type"}
+    for style in (1, 2, 3):
+        base = style * 1000000
+        cases, n = run.generate("Gen_Eval", "Gen_Eval.cfg", mode="lazy", size=1, idbase=base, name="c10_lazy_%d" % style)
+        styled = cases + ".styled"
+        with open(cases) as f, open(styled, "w") as o:
+            for line in f:
+                o.write('{"style":%d,%s' % (style, line.strip()[1:]) + "\n")
+        obs = run.replay("eval", cases=styled, name="c10_eval_%d" % style)
+        verdicts = run.validate("Trace_Eval", obs)
+        run.triage("eval", "Trace_Eval", obs, verdicts, rel, key=eval_key, nontrivial=eval_nontrivial)
+    run.bounds = dict(sugar="all token strings of <= %d tokens over 13 token kinds + 24 longer shapes (method calls with 1..10 arguments, "
+                      "sugared callees, sugar inside literals and subscripts)" % (5 if thorough else 4),
+                      semantic="the lazy universe rendered with ?: and/or method-call syntax (3 notations) on all four back ends")
+    return finish(run, "model_checking",
+                  "structural: every parsed tree of the sugar universe is desugared by the real desugarer; TLC compares the result "
+                  "(with every position and debug column) with the specification's Desugar, checks core-only, idempotence, that the "
+                  "original tree is untouched and that desugaring it again gives the same; semantic: programs rendered in sugared "
+                  "notations evaluate to the specification's value of the explicit calls. distinct = distinct texts; non-trivial = parsed",
+                  assumptions=["TLC's evaluation of the TLA+ operators is trusted"])
